@@ -144,6 +144,11 @@ def _expect_one(args):
         import traceback
 
         return {"error": "%s: %s %s" % (type(ex).__name__, ex, traceback.format_exc()[-800:])}
+    res = e.result
+    if e.admissible and res and res.get("dtype") == "int" and res.get("value") and any(v is not None and abs(v) >= 2.0 ** 62 for v in res["value"]):
+        # A-REAL: integers are mathematical; a case whose exact integer result does not fit int64 is outside what is claimed
+        return {"admissible": False, "note": "the exact integer result exceeds int64 (machine overflow is outside A-REAL)", "exc": e.exc, "result": res,
+                "may_raise": getattr(e, "may_raise", []), "inconsistent": getattr(e, "inconsistent", False)}
     return {"admissible": e.admissible, "note": e.note, "exc": e.exc, "result": e.result,
             "may_raise": getattr(e, "may_raise", []), "inconsistent": getattr(e, "inconsistent", False)}
 
